@@ -65,6 +65,8 @@ DIM_VALUES = {'TIME': '2020-05-17', 'ELEVATION': '250', 'DIM_FOO': 'bar', 'DIM_B
 REGION_LL = (5.0, 46.0, 14.0, 55.0)
 
 SIG_COMBINED_RES = 'C17/gate/res-range/combined-layers'
+SIG_PREFERRED_ALIAS = 'C17/wms/srs-alias-of-listed/reprojected'
+SIG_FWD_VALUE = 'C17/wms/forwarded-value-altered'
 
 MERC = 20037508.342789244
 FAMILIES = {
@@ -644,6 +646,10 @@ def tile_requests(draw, spec):
     anchor = source_by_name(spec, draw(st.sampled_from(sorted(set(reach)))))
     srs = grid.srs.srs_code
     ext = coverage_extent(anchor['coverage'], srs) if anchor.get('coverage') else None
+    if 'grid' in anchor and draw(st.integers(0, 2)) == 0:
+        # around the edges of the *source* grid (the cache grid may be larger)
+        sg = anchor['grid']
+        ext = bbox_to(family_rect(sg['family'], sg['depth'], sg['tx'], sg['ty']), sg['srs'], srs, n=16)
     if ext is None:
         ext = bbox_to(REGION_LL, 'EPSG:4326', srs, n=16)
     # level: relative to the limits of the anchor or free
@@ -657,6 +663,18 @@ def tile_requests(draw, spec):
     else:
         sensible = [i for i in levels if 2.0 <= grid.resolutions[i] * unit <= 20000.0] or levels
         z = draw(st.sampled_from(sensible))
+    kinds = (['tms'] if grid.supports_access_with_origin('sw') else []) + \
+        (['wmts', 'wmts-rest'] if grid.supports_access_with_origin('nw') else [])
+    kind = draw(st.sampled_from(kinds))
+    # public <-> internal level numbering of the tile services (TMS profiles skip level 0, sqrt2 grids expose
+    # every second level): choose an internal level that has a public number
+    from mapproxy.service.tile import TileServiceGrid
+    sgrid = TileServiceGrid(grid)
+    profiles = kind == 'tms'
+    if sgrid._skip_odd_level and z % 2:
+        z = max(0, z - 1)
+    if profiles and sgrid._skip_first_level and z == 0:
+        z = 2 if sgrid._skip_odd_level else 1
     fx, fy = draw(st.floats(-0.2, 1.2)), draw(st.floats(-0.2, 1.2))
     px = ext[0] + fx * (ext[2] - ext[0])
     py = ext[1] + fy * (ext[3] - ext[1])
@@ -666,14 +684,12 @@ def tile_requests(draw, spec):
     gx, gy = grid.grid_sizes[z]
     x = min(max(0, x + draw(st.sampled_from([0, 0, 0, -1, 1]))), gx - 1)
     y = min(max(0, y + draw(st.sampled_from([0, 0, 0, -1, 1]))), gy - 1)
-    kinds = (['tms'] if grid.supports_access_with_origin('sw') else []) + \
-        (['wmts', 'wmts-rest'] if grid.supports_access_with_origin('nw') else [])
-    kind = draw(st.sampled_from(kinds))
     south = y if grid.origin in ('ll', 'sw') else gy - 1 - y
+    pz = sgrid.external_tile_coord((x, y, z), profiles)[2]
     if kind == 'tms':
-        coord = [x, south, z]
+        coord = [x, south, pz]
     else:
-        coord = [x, gy - 1 - south, z]
+        coord = [x, gy - 1 - south, pz]
     return {'kind': kind, 'layer': layer['name'], 'grid': gname, 'coord': coord, 'format': cache['format'].split('/')[1],
             'anchor': anchor['name']}
 
@@ -704,22 +720,59 @@ def _combinable(a, b):
             a.get('supported_formats') == b.get('supported_formats') and a.get('coverage') == b.get('coverage'))
 
 
+def _is_wms_dimension(key):
+    k = key.lower()
+    return k in ('time', 'elevation') or k.startswith('dim_')
+
+
 def apply_exclusions(spec, stats):
-    """While the combined-layers finding is open: two adjacent direct sources of one layer that MapProxy can combine
-    into one upstream request although their resolution ranges differ are put on different servers (nothing else
-    changes), so the search continues behind the finding."""
-    n = 0
-    if SIG_COMBINED_RES not in core.open_signatures(PROPERTY):
-        return spec, n
-    by = {s['name']: s for s in spec['wms_sources']}
-    for layer in spec['layers']:
-        for a, b in zip(layer['sources'], layer['sources'][1:]):
-            if a in by and b in by and _combinable(by[a], by[b]) and _res_key(by[a]) != _res_key(by[b]):
-                by[b]['host'] = 'x%s.test' % b
-                n += 1
-    if stats is not None and n:
-        stats.excluded['combinable-adjacent-sources-with-different-res-range->separate-servers'] += n
-    return spec, n
+    """Exclusion by construction of the open known findings (each rewrites exactly its trigger and nothing else):
+    * combined-layers: two adjacent direct sources of one layer that MapProxy can combine into one upstream request
+      although their resolution ranges differ are put on different servers;
+    * preferred-alias: a preferred_src_proj entry that is an alias (900913/3857) of a supported_srs entry of some
+      source without being listed by that source itself is dropped;
+    * forwarded-value: forward_req_params entries naming a WMS dimension (TIME / ELEVATION / DIM_*) are written in
+      lower case and all other entries in upper case (a dimension in any other spelling, or one parameter spelled
+      differently by two sources of the same request, makes MapProxy send the value twice)."""
+    counts = {}
+    open_sigs = core.open_signatures(PROPERTY)
+    by = dict((s['name'], s) for s in spec['wms_sources'])
+    if SIG_COMBINED_RES in open_sigs:
+        for layer in spec['layers']:
+            for a, b in zip(layer['sources'], layer['sources'][1:]):
+                if a in by and b in by and _combinable(by[a], by[b]) and _res_key(by[a]) != _res_key(by[b]):
+                    by[b]['host'] = 'x%s.test' % b
+                    counts['combinable-adjacent-sources-with-different-res-range->separate-servers'] = \
+                        counts.get('combinable-adjacent-sources-with-different-res-range->separate-servers', 0) + 1
+    if SIG_PREFERRED_ALIAS in open_sigs:
+        def trigger(p):
+            for src in spec['wms_sources']:
+                codes = [c.upper() for c in (src.get('supported_srs') or [])]
+                if p.upper() not in codes and canon(p) in [canon(c) for c in codes]:
+                    return True
+            return False
+        for key in sorted(spec.get('preferred') or {}):
+            kept = [p for p in spec['preferred'][key] if not trigger(p)]
+            if len(kept) != len(spec['preferred'][key]):
+                counts['preferred_src_proj-entry-that-is-only-an-alias-of-a-supported_srs->dropped'] = \
+                    counts.get('preferred_src_proj-entry-that-is-only-an-alias-of-a-supported_srs->dropped', 0) + \
+                    len(spec['preferred'][key]) - len(kept)
+                if kept:
+                    spec['preferred'][key] = kept
+                else:
+                    del spec['preferred'][key]
+    if SIG_FWD_VALUE in open_sigs:
+        for src in spec['wms_sources']:
+            fixed = [k.lower() if _is_wms_dimension(k) else k.upper() for k in (src.get('fwd') or [])]
+            n = sum(1 for a, b in zip(fixed, src.get('fwd') or []) if a != b)
+            if n:
+                src['fwd'] = fixed
+                counts['forward_req_params-spelling-that-doubles-the-value->normalised'] = \
+                    counts.get('forward_req_params-spelling-that-doubles-the-value->normalised', 0) + n
+    if stats is not None:
+        for k, n in counts.items():
+            stats.excluded[k] += n
+    return spec, counts
 
 
 # ------------------------------------------------------------------------------------------------
@@ -934,7 +987,7 @@ def contains_bbox(ext, b, tol):
     return ext[0] - tol <= b[0] and ext[1] - tol <= b[1] and ext[2] + tol >= b[2] and ext[3] + tol >= b[3]
 
 
-def judge_map_call(call, rec, spec, case):
+def judge_map_call(call, rec, spec, req, case):
     out = []
     info = call.info
     names = info.get('layers') or []
@@ -943,14 +996,15 @@ def judge_map_call(call, rec, spec, case):
     srs = (info.get('srs') or '').upper()
     how = 'unknown'
     if rec is not None:
-        how = 'same-srs' if rec['query']['srs'].upper() == srs else 'reprojected'
+        how = 'same-srs' if canon(rec['query']['srs'].upper()) == canon(srs) else 'reprojected'
     for name in names:
         src = source_by_name(spec, name)
         if src is None or 'version' not in src:
             raise core.HarnessError('upstream WMS call for unknown layer %r: %s' % (name, call.url))
         if src.get('supported_srs') and srs not in [c.upper() for c in src['supported_srs']]:
-            out.append(V('wms/srs-not-listed/' + how, 'source %s (supported_srs %r) was asked in %s: %s'
-                         % (name, src['supported_srs'], srs, call.url), case))
+            alias = canon(srs) in [canon(c) for c in src['supported_srs']]
+            out.append(V('wms/%s/%s' % ('srs-alias-of-listed' if alias else 'srs-not-listed', how),
+                         'source %s (supported_srs %r) was asked in %s: %s' % (name, src['supported_srs'], srs, call.url), case))
         if src.get('supported_formats'):
             fmt = mime_of(info.get('format'))
             if fmt not in [mime_of(f) for f in src['supported_formats']]:
@@ -974,6 +1028,11 @@ def judge_map_call(call, rec, spec, case):
         if extra:
             out.append(V('wms/dimension-not-forwardable', 'source %s (forward_req_params %r) received %r: %s'
                          % (name, src.get('fwd'), extra, call.url), case))
+        sent = dict((k.upper(), v) for k, v in (req.get('dims') or {}).items())
+        for k in sorted(fwd):
+            if k in call.params and k in sent and call.params[k] != sent[k]:
+                out.append(V('wms/forwarded-value-altered', 'source %s forwards %s: client sent %r, upstream received %r: %s'
+                             % (name, k, sent[k], call.params[k], call.url), case))
     return out
 
 
@@ -1109,11 +1168,14 @@ def run_case(case, stats, record=True, exclude=True):
                     if c.kind == 'unknown':
                         raise core.HarnessError('call to unregistered host: %s' % c.url)
                     if c.kind == 'map':
-                        vs.extend(judge_map_call(c, by_call.get(id(c)), spec, sub))
+                        vs.extend(judge_map_call(c, by_call.get(id(c)), spec, req, sub))
                     elif c.kind == 'tile':
                         if c.info.get('in_grid') is not True:
-                            vs.append(V('tile/address-outside-source-grid', 'tile upstream asked for %r which is not in the '
-                                        'source grid (sizes %r): %s' % (c.info.get('tile'), 'see grid', c.url), sub))
+                            t = c.info.get('tile')
+                            sizes = up.servers[spec['tile']['source']['host']].grid.grid_sizes
+                            vs.append(V('tile/address-outside-source-grid', 'tile upstream asked for %r; the source grid has '
+                                        '%d levels, size of that level %r: %s'
+                                        % (t, len(sizes), sizes[t[2]] if t and 0 <= t[2] < len(sizes) else None, c.url), sub))
                     elif c.kind == 'other' and c.info.get('undecodable'):
                         vs.append(V('tile/undecodable-address', 'tile upstream asked for %s' % c.url, sub))
                 for r in recs:
@@ -1131,6 +1193,46 @@ def run_case(case, stats, record=True, exclude=True):
     return violations
 
 
+def reduce_case(v):
+    """Cheap, deterministic reduction instead of Hypothesis shrinking (an evaluation costs ~0.5 s): the failing
+    request alone, on a configuration cut down to what that request can reach; kept only if it still fails with
+    the same signature."""
+    case = v.case
+    spec, req = case['conf'], case['requests'][0]
+    lnames = req['layers'] if req['kind'] == 'wms' else [req['layer']]
+    small = dict(spec)
+    small['layers'] = [l for l in spec['layers'] if l['name'] in lnames]
+    reach = set()
+    for ln in lnames:
+        reach.update(sources_of_layer(spec, ln))
+    keep_caches = set()
+
+    def walk(n):
+        for c in all_caches(spec):
+            if c['name'] == n:
+                keep_caches.add(n)
+                for s_ in c['sources']:
+                    walk(s_)
+    for l in small['layers']:
+        for s_ in l['sources']:
+            walk(s_)
+    small['wms_sources'] = [s_ for s_ in spec['wms_sources'] if s_['name'] in reach]
+    small['caches'] = [c for c in spec['caches'] if c['name'] in keep_caches]
+    if spec.get('tile') and 't0' not in reach:
+        small['tile'] = None
+    elif spec.get('tile') and spec['tile'].get('cascade') and 'cc0' not in keep_caches:
+        small['tile'] = dict(spec['tile'], cascade=None)
+    reduced = {'conf': small, 'requests': [req]}
+    try:
+        again = run_case(reduced, core.Stats(), record=False, exclude=False)
+    except Exception:
+        return v
+    for w in again:
+        if w.signature == v.signature:
+            return w
+    return v
+
+
 def check_case(case, stats):
     vs = run_case(case, stats)
     if not vs:
@@ -1138,14 +1240,14 @@ def check_case(case, stats):
     seen = set(v.signature for v in stats.violations)
     for v in vs:
         if v.signature not in seen:
-            return v
+            return reduce_case(v)
     return vs[0]
 
 
 def shard(shard_no, nshards, seed, tier):
     st_ = core.Stats()
-    n = (560 if tier == 'quick' else 9600) // nshards
-    core.hyp_search(cases(), check_case, st_, max_examples=n, seed=seed, shrink=False)
+    n = (640 if tier == 'quick' else 32000) // nshards
+    core.hyp_search(cases(), check_case, st_, max_examples=n, seed=seed, shrink=False, max_signatures=2)
     return st_
 
 
